@@ -79,9 +79,13 @@ pub enum Write {
     ReplTtl,
     ReplFirst,
     CatchupNewer,
+    /// the key was deleted locally (its tombstone holds the empty value) and is set again to ""
+    LocalSetEmptyAfterDelete,
+    /// the copy holds the key's tombstone; a later delta brings the key back with the value ""
+    ReplEmptyAfterTombstone,
 }
 
-pub const WRITES: [Write; 12] = [
+pub const WRITES: [Write; 14] = [
     Write::LocalSetNew,
     Write::LocalSetSame,
     Write::LocalSetTtl,
@@ -94,6 +98,8 @@ pub const WRITES: [Write; 12] = [
     Write::ReplTtl,
     Write::ReplFirst,
     Write::CatchupNewer,
+    Write::LocalSetEmptyAfterDelete,
+    Write::ReplEmptyAfterTombstone,
 ];
 
 /// Runs one scenario; returns (observed calls, expected calls).
@@ -106,6 +112,14 @@ pub fn scenario(prefixes: &[(String, Life)], key: &str, write: Write) -> Result<
     match write {
         Write::LocalSetSame | Write::LocalDelete | Write::LocalDeleteTtl => node.cc.self_node_state().set(key, "old"),
         Write::LocalSetTtlSame => node.cc.self_node_state().set_with_ttl(key, "old"),
+        Write::LocalSetEmptyAfterDelete => {
+            node.cc.self_node_state().set(key, "old");
+            node.cc.self_node_state().delete(key);
+        }
+        Write::ReplEmptyAfterTombstone => {
+            node.cc.verif_process_message(real::build_real(&Msg::Syn { digest: vec![DigestEntry { id: x.clone(), heartbeat: 1, gc: 0, mv: 0 }], cluster_id: "c".into() }).unwrap());
+            node.cc.verif_process_message(real::build_real(&Msg::Ack { ops: vec![Op::Node { id: x.clone(), gc: 0, from: 0 }, kv("other", "o", 1, 0), kv(key, "", 2, 1)] }).unwrap());
+        }
         Write::ReplNewer | Write::ReplStale | Write::ReplTombstone | Write::ReplTtl | Write::CatchupNewer => {
             node.cc.verif_process_message(real::build_real(&Msg::Syn { digest: vec![DigestEntry { id: x.clone(), heartbeat: 1, gc: 0, mv: 0 }], cluster_id: "c".into() }).unwrap());
             node.cc.verif_process_message(real::build_real(&Msg::Ack { ops: vec![Op::Node { id: x.clone(), gc: 0, from: 0 }, kv("other", "o", 1, 0), kv(key, "old", 2, 0)] }).unwrap());
@@ -197,6 +211,15 @@ pub fn scenario(prefixes: &[(String, Life)], key: &str, write: Write) -> Result<
             let m = real::build_real(&Msg::SynAck { digest: vec![], ops: vec![Op::Node { id: x.clone(), gc: 0, from: 0 }, kv(key, "first", 1, 0)] }).unwrap();
             guarded(|| node.cc.verif_process_message(m))?;
             expected(&active, key, "first", "x")
+        }
+        Write::LocalSetEmptyAfterDelete => {
+            guarded(|| node.cc.self_node_state().set(key, ""))?;
+            expected(&active, key, "", me)
+        }
+        Write::ReplEmptyAfterTombstone => {
+            let m = real::build_real(&Msg::Ack { ops: vec![Op::Node { id: x.clone(), gc: 0, from: 2 }, kv(key, "", 3, 0)] }).unwrap();
+            guarded(|| node.cc.verif_process_message(m))?;
+            expected(&active, key, "", "x")
         }
         Write::CatchupNewer => {
             // the catch-up entry point: `key` gets a newer value, `other` is supplied unchanged
@@ -298,7 +321,7 @@ pub fn run(tier: Tier, started: Instant) -> Vec<Part> {
 
     // B: one prefix x key x life cycle x write kind
     let mut b = Part::new("listeners/B-lifecycles-and-write-kinds");
-    b.rule = "every prefix (or none) x every key x subscription life-cycle {active, handle dropped, forever, subscribed twice} x write kind {local set new / same value, set_with_ttl new / same, delete, delete_after_ttl, replicated newer set, replicated stale entry alongside a fresh one, replicated tombstone, replicated TTL entry, first replicated entry of a member via SYN-ACK, catch-up entry point}; same oracle; deletions, no-ops, stale updates and dropped handles must produce no call".into();
+    b.rule = "every prefix (or none) x every key x subscription life-cycle {active, handle dropped, forever, subscribed twice} x write kind {local set new / same value, set_with_ttl new / same, delete, delete_after_ttl, replicated newer set, replicated stale entry alongside a fresh one, replicated tombstone, replicated TTL entry, first replicated entry of a member via SYN-ACK, catch-up entry point, local set of \"\" after a delete, replicated \"\" after a tombstone}; same oracle; deletions, no-ops, stale updates and dropped handles must produce no call".into();
     let mut psets: Vec<Option<String>> = vec![None];
     psets.extend(all.iter().cloned().map(Some));
     b.bounds = json!({"prefixes": psets.len(), "keys": all.len(), "lifecycles": 4, "write_kinds": WRITES.len()});
